@@ -1,13 +1,16 @@
 #!/bin/sh
-# usage: tools/try_seed.sh <seed-dir> [check ids...]   applies <seed-dir>/patch.diff to /repo, runs the demo and the
-# checks, and ALWAYS reverts /repo afterwards.  Nothing is ever committed in /repo.
+# usage: tools/try_seed.sh <seed-dir> [check ids...]
+# Applies <seed-dir>/patch.diff to a SCRATCH WORKTREE of /repo's HEAD (never to /repo itself, so that other checks
+# running against /repo are not disturbed), runs the demo and the given checks against it (VERIF_REPO), and removes
+# the worktree afterwards.  NOTE: uncommitted changes of /repo are not in the worktree.
 D=$(readlink -f "$1"); shift
 [ -f "$D/patch.diff" ] || { echo "no patch in $D"; exit 2; }
-if [ -n "$(git -C /repo status --porcelain)" ]; then echo "/repo not clean"; exit 2; fi
-git -C /repo apply "$D/patch.diff" || { echo "patch does not apply"; exit 2; }
-trap 'git -C /repo checkout -- . ; git -C /repo status --porcelain' EXIT
-if [ -f "$D/demo.py" ]; then /venv/bin/python "$D/demo.py" /repo/src >/tmp/try_seed_demo.out 2>&1; echo "demo on mutated tree: exit=$? ($(tail -1 /tmp/try_seed_demo.out | cut -c1-150))"; fi
+WT=$(mktemp -d /tmp/wt_try_XXXXXX); rmdir "$WT"
+git -C /repo worktree add -q --detach "$WT" HEAD || exit 2
+trap 'git -C /repo worktree remove --force "$WT"; rm -rf /tmp/try_seed_evidence_$$' EXIT
+git -C "$WT" apply "$D/patch.diff" || { echo "patch does not apply"; exit 2; }
+if [ -f "$D/demo.py" ]; then /venv/bin/python "$D/demo.py" "$WT/src" >/tmp/try_seed_demo_$$.out 2>&1; echo "demo on mutated tree: exit=$? ($(tail -1 /tmp/try_seed_demo_$$.out | cut -c1-150))"; rm -f /tmp/try_seed_demo_$$.out; fi
 for c in "$@"; do
   echo "--- check $c on mutated tree"
-  ( cd /verif && VERIF_EVIDENCE_DIR=/tmp/try_seed_evidence /venv/bin/python checks/$c.py 2>&1 | grep -E "^(VIOLATION|UNDECIDED|ENGINE-FAULT|KNOWN|\[C)|failed obligation|replay:" | cut -c1-420 | head -${TRY_LINES:-12} )
+  ( cd /verif && VERIF_REPO="$WT" VERIF_EVIDENCE_DIR=/tmp/try_seed_evidence_$$ VERIF_REPLAY_DIR=/tmp/try_seed_evidence_$$/replay /venv/bin/python checks/$c.py 2>&1 | grep -E "^(VIOLATION|UNDECIDED|ENGINE-FAULT|KNOWN|\[C)|failed obligation|replay:" | cut -c1-420 | head -${TRY_LINES:-12} )
 done
